@@ -88,6 +88,9 @@ theorem sub_svc : (subscribeRequest cfg svc t).svc = svc := rfl
 theorem sub_sid : hdr (subscribeRequest cfg svc t) kSID = none := by
   have := gen_tables_ok.1; simp only [subSpecOk, Bool.and_eq_true, beq_iff_eq] at this
   rw [subscribeRequest, hdr_mkReq, this.1.1.1.2]; rfl
+theorem sub_callback : hdr (subscribeRequest cfg svc t) kCALLBACK = some ('<' :: cfg.callback ++ ['>']) := by
+  have g := gen_tables_ok.1; simp only [subSpecOk, Bool.and_eq_true, beq_iff_eq] at g
+  rw [subscribeRequest, hdr_mkReq, g.1.2]; rfl
 theorem sub_valid (h : 0 ≤ t) : validReq (subscribeRequest cfg svc t) = true := by
   have g := gen_tables_ok.1; simp only [subSpecOk, Bool.and_eq_true, beq_iff_eq] at g
   obtain ⟨x, hx, hv⟩ := timeout_valid cfg t [] h _ g.2
